@@ -95,6 +95,8 @@ def _corruptions(trace):
     stor = next((r for r in trace if r["api"] == "storage" and r["err"] == "" and len(r["out"]) >= 1
                  and r["form"] == "ranges"), None)
     if single is None or multi is None or stor is None:
+        if any(r["status"] == -1 for r in trace):
+            return []                 # run aborted by the watchdog: the hang itself is the verdict
         raise vlib.Infra("self-test: trace lacks a single-range 206, a multipart 206 or a storage read")
     a = copy.deepcopy(single)
     a["out"][0]["hi"] += 1            # claimed Content-Range shifted by one
@@ -146,7 +148,11 @@ def run(ctx):
     trace = vlib.read_ndjson(ctx.path("trace.ndjson"))
     n_http = sum(1 for r in trace if r["api"] == "http")
     want = sum(len(c["stacks"]) for c in cases)
-    if n_http != want:
+    hung = [r for r in trace if r["status"] == -1]
+    if hung:
+        ctx.log("driver stopped: the real code did not answer %r on %s/%s within the watchdog limit" %
+                (hung[0]["hdr"], hung[0]["stack"], hung[0]["api"]))
+    elif n_http != want:
         raise vlib.Infra("driver executed %d of %d http cases" % (n_http, want))
     # binding self-test lines (corrupted copies of recorded lines) ride along at the end of the file
     bad = _corruptions(trace)
@@ -184,9 +190,14 @@ def run(ctx):
             ctx._c05n = getattr(ctx, "_c05n", 0) + 1
             rp = ctx.path("replay%d.ndjson" % ctx._c05n)
             vlib.write_ndjson(rp, [line, {"verdict": r}])
-            ctx.violation(rp, "%s on %s/%s object %s request %r: code answered status=%s err=%r out=%s; model: %s" %
-                          (r["verdict"], line["stack"], line["api"], line["obj"], line["hdr"], line["status"], line["err"],
-                           json.dumps(line["out"])[:300], json.dumps(r.get("expected"))[:500]))
+            ctx.violation(rp, "%s on %s/%s object %s (parts %s) request %r: code answered status=%s err=%r out=%s "
+                              "content-length=%s body-bytes=%s parts-opened=%s framing-ok=%s; model: %s" %
+                          (r["verdict"], line["stack"], line["api"], line["obj"], line["parts"], line["hdr"], line["status"],
+                           line["err"], json.dumps(line["out"])[:300], line["cl"], line["blen"], line["opened"], line["mp_ok"],
+                           json.dumps(r.get("expected"))[:500]))
+
+    if hung:
+        return "run aborted: the real code did not answer a request (reported as VIOLATION above)"
 
     # 5. coverage: every branch the property depends on was exercised on real code
     cov = {
